@@ -58,7 +58,7 @@ type Scn struct {
 	QCallers []QCaller `json:",omitempty"`
 	QReply   string    `json:",omitempty"`
 	Cycles   int       `json:",omitempty"`
-	// kind "spinner": run | stop-posted | stopped | helpers | suspend
+	// kind "spinner": run | stop-posted | stopped | helpers | suspend | fullqueue
 	Spin string `json:",omitempty"`
 	Seed int64
 }
@@ -432,12 +432,19 @@ func spinnerRun(sc *Scn, res *Result) *Result {
 	con := fakecon.New(20, 5)
 	resp := responder.New(caps, 20, 5, con.Inject)
 	con.OnWrite = resp.OnWrite
-	vx, err := vaxis.New(vaxis.Options{WithConsole: con, NoSignals: true, EventQueueSize: 1024})
+	qsize := 1024
+	if sc.Spin == "fullqueue" {
+		qsize = 4
+	}
+	vx, err := vaxis.New(vaxis.Options{WithConsole: con, NoSignals: true, EventQueueSize: qsize})
 	if err != nil {
 		res.What = "start: " + err.Error()
 		return res
 	}
 	sp := spinner.New(vx, 2*time.Millisecond)
+	if sc.Spin == "fullqueue" {
+		return spinnerFullQueue(vx, sp, res)
+	}
 	frames, syncs := 0, 0
 	// the application's event loop, on the main goroutine, until cond holds (at most 2 s)
 	pump := func(cond func() bool) {
@@ -507,6 +514,78 @@ func spinnerRun(sc *Scn, res *Result) *Result {
 	}
 	if res.Returned {
 		call("Close", vx.Close, res)
+	}
+	waitLeaks(res)
+	return res
+}
+
+// spinnerFullQueue: the spinner ticks while the event queue is full: six goroutines post blocking events
+// into a queue of four, the application's loop takes one event, works 1 ms, draws the spinner and renders.
+// Nothing here may stop the loop: a tick that finds the queue full may be dropped (a non-blocking post),
+// but the goroutine that drains the queue must never wait for the goroutine that fills it.
+func spinnerFullQueue(vx *vaxis.Vaxis, sp *spinner.Model, res *Result) *Result {
+	const producers, each = 6, 20
+	sp.Start()
+	var wg sync.WaitGroup
+	for p := 0; p < producers; p++ {
+		wg.Add(1)
+		go func(p int) {
+			defer wg.Done()
+			for n := 1; n <= each; n++ {
+				vx.PostEventBlocking(pev{p, n})
+			}
+		}(p)
+	}
+	got := make(chan int, 1)
+	quit := make(chan struct{})
+	var progress atomic.Int64
+	go func() { // the application's loop (it may get stuck: it is not the goroutine that judges)
+		n := 0
+		for n < producers*each {
+			select {
+			case ev := <-vx.Events():
+				switch ev := ev.(type) {
+				case vaxis.SyncFunc:
+					ev()
+				case pev:
+					n++
+					time.Sleep(time.Millisecond)
+				}
+				sp.Draw(vx.Window())
+				vx.Render()
+				progress.Add(1)
+			case <-quit:
+				got <- n
+				return
+			}
+		}
+		got <- n
+	}()
+	// stuck = no turn of the loop completed for 4 s (a slow machine makes slow progress, not none)
+	last, since := int64(-1), time.Now()
+wait:
+	for {
+		select {
+		case <-got:
+			break wait
+		case <-time.After(100 * time.Millisecond):
+			if p := progress.Load(); p != last {
+				last, since = p, time.Now()
+			} else if time.Since(since) > 4*time.Second {
+				// the loop's goroutine is stuck for good; shutting down from here would be a shutdown
+				// beside a goroutine that is inside the library, which is another matter: report and leave it
+				res.Stuck = append(res.Stuck, "event loop stopped beside a ticking spinner with a full queue")
+				return res
+			}
+		}
+	}
+	close(quit)
+	call("Close", vx.Close, res)
+	pd := make(chan struct{})
+	go func() { wg.Wait(); close(pd) }()
+	select {
+	case <-pd:
+	case <-time.After(2 * time.Second):
 	}
 	waitLeaks(res)
 	return res
@@ -808,7 +887,7 @@ func GenQuery(rng *rand.Rand) *Scn {
 
 // GenSpin draws one "spinner" scenario.
 func GenSpin(rng *rand.Rand) *Scn {
-	return &Scn{Kind: "spinner", Mask: rng.Intn(1 << 15), Spin: []string{"run", "stop-posted", "stopped", "helpers", "suspend"}[rng.Intn(5)], Seed: rng.Int63()}
+	return &Scn{Kind: "spinner", Mask: rng.Intn(1 << 15), Spin: []string{"run", "stop-posted", "stopped", "helpers", "suspend", "fullqueue"}[rng.Intn(6)], Seed: rng.Int63()}
 }
 
 func Fixed() []*Scn {
@@ -831,6 +910,8 @@ func Fixed() []*Scn {
 		{Kind: "spinner", Spin: "stopped", Seed: 33},
 		{Kind: "spinner", Spin: "helpers", Seed: 34},
 		{Kind: "spinner", Spin: "suspend", Seed: 35},
+		{Kind: "spinner", Spin: "fullqueue", Seed: 36},
+		{Kind: "spinner", Spin: "fullqueue", Mask: 1<<15 - 1, Seed: 37},
 		// the resize hand-off (specs/conc/ResizeFlag.tla): 1 = a plain resize, 2.. = further size changes each landing inside a Render
 		{Kind: "resize-handoff", Resizes: 1, Seed: 41},
 		{Kind: "resize-handoff", Resizes: 2, Seed: 42},
